@@ -147,6 +147,34 @@ fn src_values(l: Layout, tier: Tier) -> Vec<u128> {
         }
     }
 }
+/// conversion sources for one (source, destination) pair: the source's own domain followed by source values *related
+/// to the destination*: the destination's extremes, the first value beyond them, 0 and +-1 ulp of the destination,
+/// expressed in source units, each with its source neighbours -- the overflow boundary of the pair, which sits at
+/// raw bit position (destination integer bits - 1 + source fractional bits), rarely a boundary value of the source
+fn conv_sources(s: Layout, d: Layout, tier: Tier) -> Vec<u128> {
+    let mut v = src_values(s, tier);
+    if s.w <= 16 {
+        return v; // all values already
+    }
+    let mut seen: std::collections::HashSet<u128> = v.iter().cloned().collect();
+    let one = vcore::Z::from_u128(1);
+    let dz = |raw: u128| d.z(raw);
+    let targets = [dz(d.max_raw()), dz(d.max_raw()).add(one), dz(d.min_raw()), dz(d.min_raw()).sub(one), vcore::Z::ZERO, one, one.neg(), dz(d.max_raw()).shr_floor(1), dz(d.max_raw()).add(one).shl(1)];
+    for t in targets {
+        // t in destination units = t * 2^(fs - fd) source units (floor when the source is coarser)
+        let base = if s.frac >= d.frac { t.shl(s.frac - d.frac) } else { t.shr_floor(d.frac - s.frac) };
+        for off in [-2i128, -1, 0, 1, 2] {
+            let z = base.add(vcore::Z::from_i128(off));
+            if s.fits(&z) {
+                let raw = s.wrap(&z);
+                if seen.insert(raw) {
+                    v.push(raw);
+                }
+            }
+        }
+    }
+    v
+}
 fn cmp_values(l: Layout, tier: Tier) -> Vec<u128> {
     match l.w {
         8 => alpha::all_values(8),
@@ -261,7 +289,7 @@ fn run_pair(p: &Pair, prop: Prop, tier: Tier) -> JobOut {
     let (s, d) = (p.s, p.d);
     let key = |op: usize| format!("{}->{} {}", s.family(), d.family(), OPS[op]);
     if prop != Prop::C03 {
-        for &a in &src_values(s, tier) {
+        for &a in &conv_sources(s, d, tier) {
             rep.states += 1;
             if a != 0 {
                 rep.nontrivial_states += 1;
@@ -536,7 +564,7 @@ fn cmd_dump(tab: &[Pair], args: &Args) {
             writeln!(o, "{}\t{}", case(p, op, a, b), got).unwrap();
         }
     } else {
-        for &a in &src_values(s, tier) {
+        for &a in &conv_sources(s, d, tier) {
             if op < 10 && expect_conv(s, d, op, a, &Out::Panic).is_none() {
                 continue;
             }
